@@ -73,6 +73,8 @@ type MapAgg struct {
 	// lookups of keys not listed then yield fresh symbols.
 	Unknown bool
 	Tag     string
+	Oks     []*T  // per entry: the condition under which the key is present (nil slice: all present)
+	Writes  []Val // keys written by MapUpdate, in order
 }
 
 type Closure struct {
